@@ -17,16 +17,26 @@ class Src(str):
     in normal form (sa/canon.py) - when the *normal form* of the fragment occurs modulo consistent renaming of local names
     (hook installed by rules/shared_py.py). Equality stays exact."""
     hook = None
+    alts = ()       # the same construct in the light normal form (no propagation of locals, no helper folding): a fragment
+                    # written the way the source spells it is still found after the full normal form has substituted its locals
 
     def __contains__(self, piece):
         if str.__contains__(self, piece):
             return True
-        return bool(Src.hook(piece, self)) if Src.hook is not None else False
+        if Src.hook is not None and Src.hook(piece, self):
+            return True
+        for a in self.alts:
+            if str.__contains__(a, piece) or (Src.hook is not None and Src.hook(piece, a)):
+                return True
+        return False
 
 
 def ws(s):
     import re
-    return Src(re.sub(r'\s+', ' ', s))
+    r = Src(re.sub(r'\s+', ' ', s))
+    if isinstance(s, Src) and s.alts:
+        r.alts = tuple(re.sub(r'\s+', ' ', a) for a in s.alts)
+    return r
 
 
 def unparse(node):
@@ -34,7 +44,11 @@ def unparse(node):
         return Src('None')
     if isinstance(node, list):
         return Src('; '.join(unparse(n) for n in node))
-    return Src(ast.unparse(node))
+    r = Src(ast.unparse(node))
+    light = getattr(node, '_light', None)
+    if light is not None:
+        r.alts = (ast.unparse(light),)
+    return r
 
 
 class Func(object):
@@ -93,6 +107,11 @@ class Module(object):
         fold_version_guards(self.tree)
         if not os.environ.get('SA_NO_CANON'):
             from . import canon
+            if not os.environ.get('SA_NO_INLINE') and not os.environ.get('SA_NO_CANON2'):
+                from . import canon2, inline
+                base = inline.baseline()
+                if base:
+                    self.folded_constants = canon2.fold_module_constants(self.tree, set(base.get(self.name + '#names', [])))
             self.tree = canon.normalise(self.tree)
             if not os.environ.get('SA_NO_INLINE'):
                 from . import inline
@@ -100,6 +119,7 @@ class Module(object):
                 if self.folded:
                     self.tree = canon.normalise(self.tree)
         self.folded = getattr(self, 'folded', [])
+        self._attach_light()
         self.funcs = {}          # qualname -> [Func] (duplicates: if/else variants in order)
         self.classes = {}        # qualname -> ClassDef
         self.class_bases = {}    # qualname -> [base source]
@@ -107,6 +127,41 @@ class Module(object):
         self.func_of = {}        # id(node) -> Func containing it (innermost)
         self.imports = {}        # local name -> dotted target ('prophyc.model', 'prophyc.model.Kind')
         self._index()
+
+    def _attach_light(self):
+        """Every function node of the analysed tree gets `_light`: the same function with only the local rewrites of the
+        normal form applied (comparison / if shapes), locals and helpers left as written."""
+        if os.environ.get('SA_NO_CANON') or os.environ.get('SA_NO_LIGHT'):
+            return
+        from . import canon
+        light = ast.parse(self.source, self.path)
+        fold_version_guards(light)
+        light = canon.normalise_light(light)
+
+        def quals(tree):
+            out = {}
+
+            def walk(body, prefix):
+                for s in body:
+                    if isinstance(s, (ast.FunctionDef, ast.AsyncFunctionDef)):
+                        out.setdefault(prefix + s.name, []).append(s)
+                        walk(s.body, prefix + s.name + '.')
+                    elif isinstance(s, ast.ClassDef):
+                        walk(s.body, prefix + s.name + '.')
+                    else:
+                        for field in ('body', 'orelse', 'finalbody'):
+                            b = getattr(s, field, None)
+                            if isinstance(b, list):
+                                walk([x for x in b if isinstance(x, ast.stmt)], prefix)
+                        for h in getattr(s, 'handlers', []) or []:
+                            walk(h.body, prefix)
+            walk(tree.body, '')
+            return out
+        a, b = quals(self.tree), quals(light)
+        for q, nodes in a.items():
+            if len(b.get(q, [])) == len(nodes):
+                for n, l in zip(nodes, b[q]):
+                    n._light = l
 
     def _index(self):
         for parent in ast.walk(self.tree):
@@ -293,6 +348,34 @@ def const_eval(node, env=None):
         a, b = const_eval(node.left, env), const_eval(node.right, env)
         try:
             return _BIN[type(node.op)](a, b)
+        except Exception:
+            raise NotConst(unparse(node))
+    if isinstance(node, (ast.GeneratorExp, ast.ListComp, ast.SetComp)):
+        # a comprehension over constants (`x + y for x in 'ui' for y in ['8', '16']`)
+        def expand(gens, e):
+            if not gens:
+                yield const_eval(node.elt, e)
+                return
+            g = gens[0]
+            it = const_eval(g.iter, e)
+            if not isinstance(it, (str, tuple, list, set, frozenset)):
+                raise NotConst(unparse(g.iter))
+            for v in (sorted(it) if isinstance(it, (set, frozenset)) else it):
+                e2 = dict(e)
+                if isinstance(g.target, ast.Name):
+                    e2[g.target.id] = v
+                else:
+                    raise NotConst(unparse(g.target))
+                if all(const_eval(c, e2) for c in g.ifs):
+                    for x in expand(gens[1:], e2):
+                        yield x
+        vals = list(expand(node.generators, env))
+        return set(vals) if isinstance(node, ast.SetComp) else vals
+    if isinstance(node, ast.Call) and isinstance(node.func, ast.Name) and node.func.id in ('set', 'frozenset', 'tuple', 'list', 'sorted') \
+            and len(node.args) == 1 and not node.keywords:
+        v = const_eval(node.args[0], env)
+        try:
+            return {'set': set, 'frozenset': frozenset, 'tuple': tuple, 'list': list, 'sorted': sorted}[node.func.id](v)
         except Exception:
             raise NotConst(unparse(node))
     if isinstance(node, ast.Subscript):
